@@ -1,6 +1,7 @@
 package oapi
 
 import (
+	"encoding/json"
 	"fmt"
 	"math"
 	"regexp"
@@ -28,6 +29,11 @@ func jsonTypeOf(v any) string {
 			return "integer"
 		}
 		return "number"
+	case json.Number:
+		if strings.ContainsAny(t.String(), ".eE") {
+			return "number"
+		}
+		return "integer"
 	case nil:
 		return "null"
 	case []any:
